@@ -234,7 +234,9 @@ func check(c *graphCase, o *vk.Obs) []string {
 			for _, cl := range r.Calls {
 				fn := cgSuffix.ReplaceAllString(cl.Fn, "")
 				if !addrOf[fmt.Sprintf("%q@%x:%d", fn, cl.Addr, cl.Line)] {
-					if cl.Relative && vk.Known("C18-callgrind-calls-relative") {
+					// the recorded finding explains exactly one wrong reading: the relative form was computed against
+					// the function printed before the caller
+					if cl.Relative && vk.Known("C18-callgrind-calls-relative") && addrOf[fmt.Sprintf("%q@%x:%d", fn, cl.AltAddr, cl.Line)] {
 						o.Exclude("C18-callgrind-calls-relative")
 						continue
 					}
